@@ -210,6 +210,9 @@ def _execute_sync(case):
             return      # the back-off elapses
         answer()
     h.on_wait = on_wait
+    # the moment between the simple client's own connectivity check and the
+    # underlying client's send is a scheduling point as well
+    coop.wrap_yield(sched, h.sio, ['emit'], prefix='client.')
 
     def producer():
         for step in case['producer']:
